@@ -962,6 +962,11 @@ class UserActions(object):
     # avoid all the names used while processing _adjust_columns_update(). This is necessary when
     # multiple updates have conflicting sanitized names.
     if has_diff_value(col_values, 'colId', col.colId):
+      # Columns that the engine recognizes by NAME must keep it: 'manualSort' (row order, and the
+      # tie-break of sorted lookups), and 'group' in a summary table (gencode tells a summary table
+      # by that column, see summary.decode_summary_table_name).
+      if col.colId == 'manualSort' or (col.colId == 'group' and col.parentId.summarySourceTable):
+        raise ValueError("Cannot rename special column '%s'" % col.colId)
       col_values['colId'] = self._pick_col_name(col.parentId, col_values['colId'],
                                                 old_col_id=col.colId, avoid_extra=avoid_colid_set)
       avoid_colid_set.add(col_values['colId'])
@@ -1709,6 +1714,8 @@ class UserActions(object):
     # We can remove a column via either a "RemoveColumn" useraction or by removing a column
     # metadata record. We implement the former interface by forwarding to the latter.
     col = self._docmodel.get_column_rec(table_id, col_id)
+    if col.colId == 'group' and col.parentId.summarySourceTable:
+      raise ValueError("RemoveColumn: cannot remove the group column of a summary table")
     self._docmodel.remove([col])
 
 
